@@ -18,6 +18,8 @@ BATCH = 32
 
 
 def variants(tier):
+    if tier == "c14:quick":
+        return ["std-O0", "std-O2"]
     if tier == "quick":
         return ["std-O0", "std-O2", "unity-O3"]
     return ["std-O0", "std-O1", "std-O2", "std-O3", "unity-O2", "unity-O3"]
